@@ -77,7 +77,7 @@ def inferLoop (D : Dom) (prog : Prog) : Nat → Ann D → Ann D
   | 0, ann => ann
   | n + 1, ann => inferLoop D prog n (inferRound D prog ann)
 
-def infer (D : Dom) (prog : Prog) (rounds : Nat := 8) : Ann D :=
+def infer (D : Dom) (prog : Prog) (rounds : Nat := 3) : Ann D :=
   inferLoop D prog rounds ((List.replicate prog.length none).set 0 (some D.entry))
 
 /-! ### What `check` gives -/
